@@ -3,7 +3,8 @@
   documented meaning of the directives (strftime.rs doc comments / Ruby `Time#strftime`), not
   through the parser machine of `Model/Strftime.lean`:
   * a `%` not followed by a format specifier (after optional flags, width and one `E`/`O`), or a
-    width that does not fit `usize`, is an error; everything else formats;
+    width above 65535 (what the formatter can pad; after the `fix:` commit — it used to panic), is
+    an error; everything else formats;
   * a numeric directive prints its calendar field right-aligned in `width` (default: the
     documented one) filled with `0` (or blanks for `_` and for `%e %k %l`), `-` prints it bare;
   * `%L` / `%N` print the first `width` (default 3 / 9) digits of the nanosecond written with nine
@@ -35,7 +36,7 @@ def splitSpec (s : Str) : Option Spec :=
   match s2 with
   | [] => none
   | c :: r =>
-    if !ds.isEmpty && decimal ds ≥ 2 ^ 64 then none
+    if !ds.isEmpty && decimal ds ≥ 2 ^ 16 then none          -- a field wider than the formatter can pad (u16::MAX)
     else
       let w := if ds.isEmpty then none else some (decimal ds)
       if c == 'E' || c == 'O' then
